@@ -338,6 +338,19 @@ impl Report {
     pub fn counter(&self, name: &str) -> u64 {
         *self.counters.get(name).unwrap_or(&0)
     }
+    /// sum of all counters whose name starts with `prefix`
+    pub fn counter_prefix(&self, prefix: &str) -> u64 {
+        self.counters.iter().filter(|(k, _)| k.starts_with(prefix)).map(|(_, v)| *v).sum()
+    }
+    /// Record that the workload never reached something this check promises to exercise. The driver
+    /// reports the check as broken (exit 2) instead of "held".
+    pub fn require(&mut self, counter_prefix: &str, what: &str) {
+        if self.counter_prefix(counter_prefix) == 0 {
+            let mut gaps: Vec<serde_json::Value> = self.extra.get("coverage_gaps").and_then(|v| v.as_array().cloned()).unwrap_or_default();
+            gaps.push(json!(format!("{what} (counter {counter_prefix}* is 0)")));
+            let _ = self.extra.insert("coverage_gaps".into(), json!(gaps));
+        }
+    }
     pub fn set_max(&mut self, name: &str, v: u64) {
         let e = self.counters.entry(name.to_string()).or_insert(0);
         if v > *e {
